@@ -16,7 +16,9 @@
 (* The family with its expectations is exported for binding (A).           *)
 (***************************************************************************)
 EXTENDS ProjectModel, TLC, Json, IOUtils
-CONSTANTS Layouts, Deflibs, Behavioural
+CONSTANTS Layouts, Deflibs, LocSet, Behavioural
+\* provider locations <<subdir, subproject>> of F2
+Locs == IF LocSet = "small" THEN {<<"sub", "">>, <<"", "sp1">>} ELSE {<<"", "">>, <<"sub", "">>, <<"", "sp1">>}
 
 T(kind, name, subdir, sp, srcs, gen, link, bbd, install, outs, deps) ==
     [kind |-> kind, name |-> name, subdir |-> subdir, sp |-> sp, srcs |-> srcs, gen |-> gen, genlist |-> <<>>,
@@ -45,9 +47,9 @@ F1 == {P(l, dl, <<a, b>>, NoTest) : l \in Layouts, dl \in Deflibs,
 BbdInstall == {<<"unset", FALSE>>, <<"unset", TRUE>>, <<"true", FALSE>>, <<"false", FALSE>>, <<"false", TRUE>>}
 Providers ==
     {T(k, "foo", loc[1], loc[2], <<"t1.c">>, <<>>, <<>>, bi[1], bi[2], <<>>, <<>>)
-        : k \in {"static", "lib", "both", "exe"}, loc \in {<<"", "">>, <<"sub", "">>, <<"", "sp1">>}, bi \in BbdInstall}
+        : k \in {"static", "lib", "both", "exe"}, loc \in Locs, bi \in BbdInstall}
     \cup {T("custom", "c1", loc[1], loc[2], <<>>, <<>>, <<>>, bi[1], bi[2], o, <<>>)
-        : loc \in {<<"", "">>, <<"sub", "">>, <<"", "sp1">>}, bi \in BbdInstall, o \in {<<"gen.c", "gen.h">>, <<"out.txt">>}}
+        : loc \in Locs, bi \in BbdInstall, o \in {<<"gen.c", "gen.h">>, <<"out.txt">>}}
 \* run targets as providers: only an alias can depend on them (in the main project or next to them)
 RunProviders == {T("run", "foo", loc[1], loc[2], <<>>, <<>>, <<>>, "unset", FALSE, <<>>, <<>>)
                    : loc \in {<<"", "">>, <<"sub", "">>, <<"", "sp1">>, <<"sub", "sp1">>}}
@@ -96,10 +98,10 @@ Start == ~started /\ started' = TRUE /\ UNCHANGED <<fam, p, built>>
 G == ModelGraph(p)
 X == ModelExists(p)
 \* which projects get the full Run(e) exploration (all schedules): "none", "some" (F2, mirror, both, with a
-\* test), "mirror" (all of F2 under layout=mirror)
+\* test, provider with default build_by_default / install), "mirror" (all of F2 under layout=mirror)
 Explored == CASE Behavioural = "none" -> FALSE
               [] Behavioural = "some" -> fam = "F2" /\ p.layout = "mirror" /\ p.deflib = "both" /\ p.tests # <<>>
-                                         /\ ~p.tests[1].bench
+                                         /\ ~p.tests[1].bench /\ p.targets[1].bbd = "unset" /\ ~p.targets[1].install
               [] Behavioural = "mirror" -> fam = "F2" /\ p.layout = "mirror"
               [] OTHER -> TRUE
 Run(e) == /\ Explored /\ started
@@ -114,8 +116,7 @@ CollisionRuleCoherent == (started /\ built = {}) => (Collides(p) <=> ~UniqueProd
 \* collision-free projects give well-formed graphs with the expectations reachable
 ModelGraphWellFormed ==
     (started /\ built = {} /\ ~Collides(p)) =>
-        /\ WellFormed(G, X)
-        /\ Acyclic(G)
+        /\ WellFormed(G, X)   \* includes Buildable = Closed /\ Acyclic (BuildGraph_MC proves the equivalence)
         /\ ExpectAll(p) \subseteq ReachPaths(G, {"all"})
         /\ ExpectTests(p, FALSE) \subseteq ReachPaths(G, {"meson-test-prereq"})
         /\ ExpectTests(p, TRUE) \subseteq ReachPaths(G, {"meson-benchmark-prereq"})
